@@ -8,9 +8,9 @@ head = "## 12. Seeded changes (independent sub-agents) and which checks catch th
 i = s.index(head)
 table = subprocess.run([sys.executable, os.path.join(HERE, "tools", "seed_table.py")], capture_output=True, text=True).stdout
 text = head + """
-Three rounds of 19 fresh sub-agents each (57 changes). Every agent got only the text of one property and its own scratch
-git worktree of /repo under /tmp (nothing from /verif; rounds 2 and 3 were additionally told which ideas had already
-been used for that property, so that the three changes per property differ in mechanism). Each wrote one realistic
+Four rounds of 19 fresh sub-agents each (76 changes). Every agent got only the text of one property and its own scratch
+git worktree of /repo under /tmp (nothing from /verif; rounds 2-4 were additionally told which ideas had already
+been used for that property, so that the four changes per property differ in mechanism). Each wrote one realistic
 regression (a tidy-up, an off-by-one, a moved statement, a swapped argument, ...) that still passes the 88 baseline
 tests, plus a stand-alone demonstration. Each change was confirmed by `tools/seed_collect.sh` in a *fresh* scratch
 worktree (demo exits 0 on HEAD, 1 with the patch; baseline pytest command passes with the patch) and then evaluated by
@@ -18,9 +18,9 @@ worktree (demo exits 0 on HEAD, 1 with the patch; baseline pytest command passes
 live in `seeded/<id>/` (`patch.diff`, `demo.py`, `notes.md`, `confirm.json`, `eval.json`, `meta.json`); none was ever
 committed to /repo, all worktrees were removed.
 
-**Result: all 57 are reported by their own property's quick check as `VIOLATION` with a concrete failing input** (not
-merely as a broken correspondence). That was not so at first: 9 of the first 19, 14 of the second 19 and 13 of the
-third 19 were initially missed or seen only as a broken correspondence. Each miss was a hole in a *generator* or a
+**Result: all 76 are reported by their own property's quick check as `VIOLATION` with a concrete failing input** (not
+merely as a broken correspondence). That was not so at first: 9 of the first 19, 14 of the second 19, 13 of the
+third 19 and 8 of the fourth 19 were initially missed or seen only as a broken correspondence. Each miss was a hole in a *generator* or a
 missing *clause*, never a reason to weaken a check; what was added (all of it also runs on the unchanged tree):
 
 * round 1: coarse search grids and call provenance (C02), budget stress + reserve correspondence (C03), runs started at
@@ -38,6 +38,13 @@ missing *clause*, never a reason to weaken a check; what was added (all of it al
   non-integer mesh ratios (C14), the surrogate after failed refits (C15), portfolios of 1-6 strategies (C18), edge seeds
   (C19), start points that the constructor has to move (C20), `noise_size` and the other basic options (C04/C09), and
   oracle scripting of the candidate generator - "nothing proposed from the K-th search on" (C03).
+
+* round 4: start points within half a (coarse) search-grid cell of a hard bound (C01), every boolean option toggled in
+  constrained runs (C02), failing-input search by re-running a disagreeing run cut short right after the disagreeing step
+  (C04), call-dependent reported SDs and the target wrapper's own record of what it returned (C05), the caller's bound
+  arrays after constructing a transformer (C11), provenance of the poll's estimates in noisy runs - GP estimate, not raw
+  observation (C13), `search_mesh_expand > 0` and the mesh size the poll actually uses (C14), feasibility of the ES's
+  survivors judged by the run's own constraint function whatever the strategy's filter was handed (C18).
 
 Two of those generator extensions exposed genuine defects on the pinned tree (section 11: `noise_size` with specified
 noise; three boolean advanced options), which were repaired by `fix:` commits; one more (`fit_lik=False`) is a known finding.
